@@ -207,17 +207,23 @@ struct SLik : public LikelihoodModel {
     Script* s_;
 };
 
-struct ResLog { bool called = false; double neff = 0, u1 = 0; bool u1ok = true; std::vector<int> parents; long neff_calls = 0, res_calls = 0; };
+struct ResLog { bool called = false; double neff = 0, u1 = 0; bool u1ok = true; std::vector<int> parents; long neff_calls = 0, res_calls = 0;
+                std::vector<double> cw, cs; };   // weights handed to neff(), first state row handed to resample()
 
 struct SResampling : public Resampling {
     SResampling(unsigned int seed, long n, ResLog* log) : Resampling(seed), twin_(seed), n_(n), log_(log) {}
     void resample(const ParticleSet& cor, ParticleSet& res, Ref<VectorXi> par) override {
         double u1 = twin_u1(twin_, n_);
         log_->called = true; log_->u1 = u1; log_->u1ok = (u1 > 0.0 && u1 < 1.0 / n_); ++log_->res_calls;
+        log_->cs.clear(); for (long i = 0; i < cor.state().cols(); ++i) log_->cs.push_back(cor.state().rows() ? cor.state()(0, i) : 0.0);
         Resampling::resample(cor, res, par);
         log_->parents.assign(par.data(), par.data() + par.size());
     }
-    double neff(const Ref<const VectorXd>& w) override { double v = Resampling::neff(w); log_->neff = v; ++log_->neff_calls; return v; }
+    double neff(const Ref<const VectorXd>& w) override {
+        double v = Resampling::neff(w); log_->neff = v; ++log_->neff_calls;
+        log_->cw.assign(w.data(), w.data() + w.size());
+        return v;
+    }
     std::mt19937_64 twin_; long n_; ResLog* log_;
 };
 
@@ -248,7 +254,7 @@ struct SSIS : public SIS {
         o.n(log_->called ? 1 : 0).d(log_->neff);
         o.n(log_->parents.size()); for (int q : log_->parents) o.n(q);
         for (long i = 0; i < c.weight().rows(); ++i) o.d(c.weight()(i));
-        for (long i = 0; i < c.state().cols(); ++i) o.d(c.state()(0, i));
+        for (long i = 0; i < c.state().cols(); ++i) o.d(c.state().rows() ? c.state()(0, i) : 0.0);
         // extra facts (not part of the model's output block): storage rows, draw used, row pattern of the states
         bool rows_ok = true;
         for (long i = 0; i < c.state().cols(); ++i)
@@ -256,6 +262,10 @@ struct SSIS : public SIS {
         o.s("X").n(c.state().rows()).n(c.mean().rows()).n(c.mean().cols()).n(c.covariance().rows()).n(c.covariance().cols())
          .n(c.dim).n(c.use_quaternion ? 1 : 0).n(rows_ok ? 1 : 0).n(log_->u1ok ? 1 : 0).d(log_->u1)
          .n(log_->neff_calls).n(log_->res_calls);
+        o.n(log_->cw.size()); for (double v : log_->cw) o.d(v);
+        o.n(log_->cs.size()); for (double v : log_->cs) o.d(v);
+        o.n(p.weight().rows()); for (long i = 0; i < p.weight().rows(); ++i) o.d(p.weight()(i));
+        o.n(p.state().cols()); for (long i = 0; i < p.state().cols(); ++i) o.d(p.state().rows() ? p.state()(0, i) : 0.0);
         blocks.push_back(o.str());
     }
     Script* s_; ResLog* log_; bool skip_ok_ = true; std::vector<std::string> blocks;
